@@ -16,9 +16,11 @@
 // porcupine against the same model (FastForward and direct store reads are
 // operations of that history too).
 //
-// A server-side pre-hook (miniredis server.Hook) counts EVALSHA/EVAL commands
-// (a client-side retry after a go-redis I/O timeout would execute a script
-// twice: such a history is abandoned as inconclusive, never judged) and injects
+// A server-side pre-hook (miniredis server.Hook) counts the EVALSHA/EVAL
+// commands that reach the script engine: a call that returned without error
+// must have been executed exactly once (go-redis re-sends a command after a
+// wall-clock I/O timeout, which does happen on a starved machine; such a
+// history is abandoned as inconclusive, never judged). The hook also injects
 // store faults: error replies, retriable LOADING replies, NOSCRIPT (forces the
 // EVAL fallback), failures of the GET/SET/DEL inside the scripts; a second
 // miniredis is closed and restarted for network-level outages.
@@ -70,21 +72,14 @@ const (
 var faultNames = [...]string{"none", "err-reply", "loading-reply", "noscript", "inner-get-fails", "inner-set-fails", "inner-del-fails", "server-closed"}
 
 type srv struct {
-	mr      *miniredis.Miniredis
-	store   *redis.Redis
-	mode    atomic.Int32
-	evalsha atomic.Int64
-	eval    atomic.Int64
-	dirty   bool // the client's breaker may still remember injected failures
+	mr     *miniredis.Miniredis
+	store  *redis.Redis
+	mode   atomic.Int32
+	passed atomic.Int64 // EVALSHA/EVAL commands the hook let through to the script engine
+	dirty  bool         // the client's breaker may still remember injected failures
 }
 
 func (s *srv) hook(p *server.Peer, cmd string, args ...string) bool {
-	switch cmd {
-	case "EVALSHA":
-		s.evalsha.Add(1)
-	case "EVAL":
-		s.eval.Add(1)
-	}
 	switch s.mode.Load() {
 	case fErrReply:
 		if cmd == "EVALSHA" || cmd == "EVAL" {
@@ -117,6 +112,9 @@ func (s *srv) hook(p *server.Peer, cmd string, args ...string) bool {
 			return true
 		}
 	}
+	if cmd == "EVALSHA" || cmd == "EVAL" {
+		s.passed.Add(1)
+	}
 	return false
 }
 
@@ -127,7 +125,18 @@ func newSrv() *srv {
 	}
 	s.mr.Server().SetPreHook(s.hook)
 	s.store = redis.New(s.mr.Addr())
-	return s
+	// load both scripts now (first use costs EVALSHA -> NOSCRIPT -> EVAL), so that from
+	// here on one successful call is exactly one script command at the server
+	w := redis.NewRedisLock(s.store, "c19:warmup")
+	for i := 0; i < 50; i++ {
+		a, err1 := w.Acquire()
+		b, err2 := w.Release()
+		if a && b && err1 == nil && err2 == nil {
+			return s
+		}
+		time.Sleep(20 * time.Millisecond)
+	}
+	panic("c19: cannot reach miniredis through the go-zero client")
 }
 
 func (s *srv) closeServer() {
@@ -260,13 +269,15 @@ func (r *seqRun) matches(st sstate, h int, rem int64) bool {
 	return r.ids[h] == "" || r.ids[h] == st.val
 }
 
-func (r *seqRun) evals() (int64, int64) { return r.s.evalsha.Load(), r.s.eval.Load() }
-
-// retried reports a client-side re-execution of a script (never expected
-// without injected faults: it needs a go-redis I/O timeout).
-func (r *seqRun) retried(sha0, ev0 int64) bool {
-	sha1, ev1 := r.evals()
-	return sha1-sha0 != 1 || ev1-ev0 > 1
+// retried reports that a call which returned without error was not executed
+// exactly once at the server (a client-side re-execution needs a go-redis I/O
+// timeout, i.e. a starved machine; such a history is not judged).
+func (r *seqRun) retried(p0 int64) bool {
+	if d := r.s.passed.Load() - p0; d != 1 {
+		r.log = append(r.log, fmt.Sprintf("(the server executed %d script commands for this call)", d))
+		return true
+	}
+	return false
 }
 
 func (r *seqRun) errExpected(isAcquire bool, i int) bool {
@@ -325,7 +336,7 @@ func (r *seqRun) acquire(i int, cancelled bool) {
 		ctx = c
 		name = "AcquireCancelledCtx"
 	}
-	sha0, ev0 := r.evals()
+	p0 := r.s.passed.Load()
 	ok, err := r.lk[i].AcquireCtx(ctx)
 	r.log = append(r.log, fmt.Sprintf("%s(%d)=%v%s", name, i, ok, errStr(err)))
 	want := r.holder < 0 || r.holder == i
@@ -339,8 +350,8 @@ func (r *seqRun) acquire(i int, cancelled bool) {
 		return
 	}
 	expErr := r.errExpected(true, i) || cancelled
-	if r.s.mode.Load() == fNone && !cancelled && r.retried(sha0, ev0) {
-		r.inconclusive("the client executed the lock script more than once for one Acquire (I/O retry)")
+	if r.retried(p0) {
+		r.inconclusive("one successful Acquire was not exactly one script execution at the server (client-side I/O retry)")
 		return
 	}
 	if expErr && !ok && r.matches(r.store(), r.holder, r.rem) {
@@ -427,7 +438,7 @@ func (r *seqRun) release(i int, cancelled bool) {
 	case r.holder < 0 && r.lostByExpiry[i]:
 		class = "expired-holder-free-key"
 	}
-	sha0, ev0 := r.evals()
+	p0 := r.s.passed.Load()
 	ok, err := r.lk[i].ReleaseCtx(ctx)
 	r.log = append(r.log, fmt.Sprintf("%s(%d)=%v%s", name, i, ok, errStr(err)))
 	want := r.holder == i
@@ -440,8 +451,8 @@ func (r *seqRun) release(i int, cancelled bool) {
 		return
 	}
 	expErr := r.errExpected(false, i) || cancelled
-	if r.s.mode.Load() == fNone && !cancelled && r.retried(sha0, ev0) {
-		r.inconclusive("the client executed the release script more than once for one Release (I/O retry)")
+	if r.retried(p0) {
+		r.inconclusive("one successful Release was not exactly one script execution at the server (client-side I/O retry)")
 		return
 	}
 	st := r.store()
@@ -1015,10 +1026,14 @@ func (h *conc) exec(in cin) (cout, string) {
 
 // one records a harness-sequential operation (between rounds).
 func (h *conc) one(g int, in cin) cout {
+	p0 := h.s.passed.Load()
 	call := kit.Stamp()
 	out, et := h.exec(in)
 	ret := kit.Stamp()
 	h.recs = append(h.recs, crec{G: g, In: in, Out: out, Call: call, Ret: ret, ErrText: et})
+	if d := h.s.passed.Load() - p0; (in.K == kAcq || in.K == kRel) && !out.Err && d != 1 && !h.stop {
+		h.inconclusive(fmt.Sprintf("the server executed %d script commands for one %s that returned without error (client-side I/O retry)", d, in))
+	}
 	return out
 }
 
@@ -1027,6 +1042,9 @@ func (h *conc) one(g int, in cin) cout {
 func (h *conc) learnIDs() bool {
 	for i := 0; i < h.n; i++ {
 		a := h.one(100, cin{K: kAcq, I: i})
+		if h.stop {
+			return false
+		}
 		v, err := h.s.mr.Get(h.key)
 		if a.Err || !a.OK || err != nil {
 			if a.Err {
@@ -1043,7 +1061,9 @@ func (h *conc) learnIDs() bool {
 			return false
 		}
 		h.ids[v] = i
-		if r := h.one(100, cin{K: kRel, I: i}); r.Err || !r.OK {
+		if r := h.one(100, cin{K: kRel, I: i}); h.stop {
+			return false
+		} else if r.Err || !r.OK {
 			if r.Err {
 				h.inconclusive("unexpected infrastructure error while learning ids")
 			} else {
@@ -1076,16 +1096,10 @@ func (h *conc) witness() map[string]any {
 // round runs the actors' plans concurrently (released together) and appends
 // their records. A generous wall-clock watchdog only ever yields inconclusive.
 func (h *conc) round(actors []*actor) bool {
-	sha0, ev0 := h.s.evalsha.Load(), h.s.eval.Load()
-	scripts := 0
+	p0 := h.s.passed.Load()
 	var ready, done sync.WaitGroup
 	start := make(chan struct{})
 	for _, a := range actors {
-		for _, in := range a.plan {
-			if in.K == kAcq || in.K == kRel {
-				scripts++
-			}
-		}
 		ready.Add(1)
 		done.Add(1)
 		go func(a *actor) {
@@ -1113,16 +1127,24 @@ func (h *conc) round(actors []*actor) bool {
 		h.inconclusive("watchdog: a concurrent round did not finish within 120 s")
 		return false
 	}
+	// every call that returned without error must have been executed exactly once, every
+	// call that returned an error (injected error reply, breaker rejection) not at all
+	okOps := 0
+	for _, a := range actors {
+		for _, r := range a.recs {
+			if (r.In.K == kAcq || r.In.K == kRel) && !r.Out.Err {
+				okOps++
+			}
+		}
+	}
+	execd := h.s.passed.Load() - p0
 	for _, a := range actors {
 		h.recs = append(h.recs, a.recs...)
 		a.recs = nil
 	}
-	if h.s.mode.Load() == fNone && !h.s.dirty {
-		sha1, ev1 := h.s.evalsha.Load(), h.s.eval.Load()
-		if sha1-sha0 != int64(scripts) || ev1-ev0 > 2 {
-			h.inconclusive(fmt.Sprintf("the client executed %d script commands for %d lock operations (I/O retry)", sha1-sha0, scripts))
-			return false
-		}
+	if execd != int64(okOps) {
+		h.inconclusive(fmt.Sprintf("the server executed %d script commands for %d calls that returned without error (client-side I/O retry)", execd, okOps))
+		return false
 	}
 	return true
 }
@@ -1158,6 +1180,9 @@ func (h *conc) decide(family string, withLease, errorsAllowed bool) {
 		}
 		if r.Out.Err {
 			errs++
+			if strings.Contains(r.ErrText, "breaker") {
+				c.Obs("conc_ops_rejected_by_client_breaker", 1)
+			}
 			if r.Out.OK {
 				c.Viol("C19/error/success-reported-with-error", fmt.Sprintf("%s returned true together with an error", r.In), h.witness())
 				h.stop = true
@@ -1490,6 +1515,12 @@ func concShared(c *kit.Case) {
 func concOutage(c *kit.Case) {
 	g := c.R
 	n := g.Range(2, 6)
+	// hard outage: the fault stays on for a whole round of many calls, so that the
+	// client's breaker opens while other goroutines are still failing
+	hard := g.Chance(0.35)
+	if hard {
+		n = g.Range(4, maxInst)
+	}
 	h := newConc(c, mainSrv, n)
 	if !h.learnIDs() {
 		h.decide("outage", true, true)
@@ -1500,7 +1531,11 @@ func concOutage(c *kit.Case) {
 		var actors []*actor
 		for i := 0; i < n; i++ {
 			var plan []cin
-			for j := g.Range(1, 3); j > 0; j-- {
+			k := g.Range(1, 3)
+			if hard && rd == 0 {
+				k = g.Range(6, 9)
+			}
+			for j := k; j > 0; j-- {
 				if g.Chance(0.6) {
 					plan = append(plan, cin{K: kAcq, I: i})
 				} else {
@@ -1511,6 +1546,19 @@ func concOutage(c *kit.Case) {
 		}
 		h.s.dirty = true
 		firstOn := g.Bool()
+		if hard && rd == 0 {
+			h.s.mode.Store(fErrReply)
+			ok := h.round(actors)
+			h.s.mode.Store(fNone)
+			vclock.Advance(11 * time.Second)
+			h.s.dirty = false
+			c.Obs("conc_hard_outage_rounds", 1)
+			if !ok {
+				break
+			}
+			h.between(g, true)
+			continue
+		}
 		stopT := make(chan struct{})
 		var tw sync.WaitGroup
 		tw.Add(1)
